@@ -15,6 +15,8 @@ global size_of usize == 8;
 
 pub const MAX_INT: isize = 0x0FFF_FFFF_FFFF_FFFF;
 pub const MIN_INT: isize = -0x1000_0000_0000_0000;
+/// the range of integer values (61 bits, two's complement)
+pub open spec fn in_range(v: int) -> bool { MIN_INT <= v <= MAX_INT }
 
 pub uninterp spec fn spec_tag(o: Object) -> Type;
 pub uninterp spec fn spec_int(o: Object) -> int;
